@@ -68,7 +68,7 @@ def leaf(rng, ty):
     if ty == "B":
         return rng.choice(["true", "false", "va < vb", "vb == 4"])
     if ty == "T":
-        return rng.choice(['"abc"', "vs", '"x y"', '""'])
+        return rng.choice(['"abc"', "vs", '"x y"', '""', '"a\\\\nb"', '"q\\\\"', '"t\\tab"', '"{{b}}"', '"\\"q\\""'])
     if ty == "L":
         return rng.choice(["vl", "[1, 2]", "[va, vb, 3]", "[5]"])
     if ty == "P":
@@ -141,7 +141,8 @@ def gen_expr(rng, ty, depth):
 # ---------------------------------------------------------------------------------------------
 # definitions
 
-ESC_STRINGS = ['plain', 'with \\"quotes\\"', 'back\\\\slash', 'new\\nline', 'tab\\there', 'brace \\{ not interp \\}', "uni ✓ ü",
+ESC_STRINGS = ['a\\\\nb', 'x\\\\\\\\y', 'ends with a backslash\\\\', 'bs-quote \\\\\\"', 'bs-t \\\\t', 'bs-brace \\\\{{', 'C:\\\\dir\\\\0',
+               'plain', 'with \\"quotes\\"', 'back\\\\slash', 'new\\nline', 'tab\\there', 'brace \\{ not interp \\}', "uni ✓ ü",
                "it's", "a {va} b", "{va:.3f}", "{vlen -> cm}", "{vs}{vs}", "100 %"]
 DECOR_STR = ["Foo bar", "x", "https://example.com/a?b=c&d=1", "has, comma", "paren (s)", "ünï", "quote ' single"]
 
